@@ -633,7 +633,10 @@ func (w *responseWriter) synthesise(orig *dns.Msg) (*dns.Msg, error) {
 	// the A records carry — short-lived A records intentionally
 	// keep DNS64 answers short-lived too.
 	ttl := noSOATTLCeiling
-	if negTTL := negativeAAAATTL(orig); negTTL > 0 {
+	if negTTL, ok := negativeAAAATTL(orig); ok {
+		// A negative answer served from cache in its last second carries a
+		// SOA TTL of 0. That is a bound of 0, not a missing SOA: treating it
+		// as missing handed the synthesised records the 600 s ceiling.
 		ttl = negTTL
 	}
 	for _, a := range addresses {
@@ -890,17 +893,17 @@ func isCachedFailureResponse(ctx context.Context, m *dns.Msg) bool {
 // negativeAAAATTL returns the SOA-derived minimum negative TTL of
 // the original AAAA response, or 0 if no SOA is present. RFC 2308
 // — the negative TTL is min(SOA.MINIMUM, SOA.TTL).
-func negativeAAAATTL(m *dns.Msg) uint32 {
+func negativeAAAATTL(m *dns.Msg) (uint32, bool) {
 	for _, rr := range m.Ns {
 		if soa, ok := rr.(*dns.SOA); ok {
 			ttl := soa.Hdr.Ttl
 			if soa.Minttl > 0 && soa.Minttl < ttl {
 				ttl = soa.Minttl
 			}
-			return ttl
+			return ttl, true
 		}
 	}
-	return 0
+	return 0, false
 }
 
 // classifyQueryErr collapses queryer errors to a small label set so
